@@ -118,6 +118,33 @@ theorem parent_done_after_children (n : Nat) (es : List Ev) (h : parentDone (run
   have : sl.childEnd.isSome = true := by rw [hs]; rfl
   exact ⟨this, hinv.2.1 this⟩
 
+/-- the machine with client endings behaves as the plain one on histories without them -/
+theorem run2_base (es : List Ev) : ∀ (ss : List Slot), run2 ss (es.map .base) = run ss es := by
+  induction es with
+  | nil => intro ss; rfl
+  | cons e es ih =>
+    intro ss
+    simp only [List.map_cons, run2, run, List.foldl_cons] at ih ⊢
+    have : step2 ss (.base e) = step ss e := rfl
+    rw [this]
+    exact ih _
+
+/-- **the statement at full strength is false of model and engine** (open findings `C15|parent-ends-before-child|…`): a client
+`error` on the calling act closes it, and with it the waiting parent, while the child has not ended. The same history on the engine
+is the replay recorded with the finding. -/
+theorem client_end_precedes_child :
+    let ss := run2 (List.replicate 1 {}) [.base (.start 0), .client 0 .error]
+    parentDone ss = true ∧ ss.all (fun sl => sl.childEnd.isNone) = true := by
+  decide
+
+/-- what is proved instead (`…_partial`): on every history in which no client ends a calling act directly — starts, child endings and
+returns in any order and number — the parent is done only after every child has ended -/
+theorem parent_done_after_children_partial (n : Nat) (es : List Ev)
+    (h : parentDone (run2 (List.replicate n {}) (es.map .base)) = true) :
+    ∀ sl ∈ run2 (List.replicate n {}) (es.map .base), sl.childEnd.isSome = true ∧ sl.started = true := by
+  rw [run2_base] at h ⊢
+  exact parent_done_after_children n es h
+
 /-- a return is delivered: after the child has ended, one `ret` closes the call with the mapped state, whatever else happened before -/
 theorem return_closes (sl : Slot) (s : TaskState) (hs : sl.childEnd = some s) (hopen : sl.closed = none) :
     (sl.step (.ret 0)).closed = some (actEnd s) := by
